@@ -469,6 +469,27 @@ func c13r4(c *core.Ctx) {
 				unlocks = append(unlocks, i)
 			}
 		})
+		// an Unlock (also a deferred one) needs the Lock before it: unlocking an unlocked mutex is a fatal error that no recover catches
+		for _, u := range append(append([]ssa.Instruction{}, unlocks...), deferred...) {
+			mu := core.CallOf(u).Args[0]
+			held := false
+			for _, l := range locks {
+				if mutexKey(core.CallOf(l).Args[0]) == mutexKey(mu) && (instrDominates(l, u) || (l.Block() == u.Block() && func() bool {
+					for _, x := range l.Block().Instrs {
+						if x == l {
+							return true
+						}
+						if x == u {
+							return false
+						}
+					}
+					return false
+				}())) {
+					held = true
+				}
+			}
+			c.Check(held, "unlock-after-lock@"+fname(f)+":"+mutexKey(mu), posOf(u), "the mutex is locked on every path to this Unlock", "an Unlock (or deferred Unlock) is reachable without the Lock before it: 'sync: unlock of unlocked mutex' is fatal and takes the whole accessory down on the first request that gets here")
+		}
 		for _, l := range locks {
 			n++
 			mu := core.CallOf(l).Args[0]
